@@ -191,7 +191,7 @@ class LenEv:
                 if a == b:
                     return wrap(a) if wrap else a
                 c = self.cond_text(e.test, env)
-                r = l_add(l_mul({("ind", c): 1}, a), l_mul({("ind", "not " + c): 1}, b))
+                r = l_add(l_mul({("ind", c): 1}, a), l_mul({("ind", _neg(c)): 1}, b))
                 return wrap(r) if wrap else r
             return Opaque(norm_text(e))
         if isinstance(e, ast.Subscript):
@@ -369,7 +369,21 @@ class LenEv:
         return outs
 
     def cond_text(self, t: ast.expr, env) -> str:
-        return self.text(t, env)
+        """Canonical text of a condition: negative comparison operators and `not` become a leading "not " on the positive form, so
+        that `a is not None`, `not a is None` and the else-arm of `a is None` are one and the same condition."""
+        neg = False
+        t = copy.deepcopy(t)
+        while True:
+            if isinstance(t, ast.UnaryOp) and isinstance(t.op, ast.Not):
+                neg, t = not neg, t.operand
+                continue
+            if isinstance(t, ast.Compare) and len(t.ops) == 1 and type(t.ops[0]) in _POS:
+                t.ops = [_POS[type(t.ops[0])]()]
+                neg = not neg
+                continue
+            break
+        c = self.text(t, env)
+        return _neg(c) if neg else c
 
     def run(self, stmts, env, conds, outs) -> bool:
         """Compatibility wrapper: executes stmts from one state; True when some path falls through (env is updated only
@@ -415,7 +429,7 @@ class LenEv:
             if isinstance(v, ast.IfExp):
                 c = self.cond_text(v.test, env)
                 outs.append((conds + (c,), self.ev(v.body, env)))
-                outs.append((conds + ("not " + c,), self.ev(v.orelse, env)))
+                outs.append((conds + (_neg(c),), self.ev(v.orelse, env)))
             else:
                 outs.append((conds, self.ev(v, env) if v is not None else None))
             return []
@@ -446,7 +460,7 @@ class LenEv:
         if isinstance(s, ast.If):
             c = self.cond_text(s.test, env)
             a = self.run_states(s.body, [(dict(env), conds + (c,))], outs)
-            b = self.run_states(s.orelse, [(dict(env), conds + ("not " + c,))], outs)
+            b = self.run_states(s.orelse, [(dict(env), conds + (_neg(c),))], outs)
             # arms that leave identical environments re-join without the condition
             if len(a) == 1 and len(b) == 1 and self._same_env(a[0][0], b[0][0]):
                 return [(a[0][0], conds)]
@@ -459,7 +473,7 @@ class LenEv:
                 if isinstance(p, ast.MatchClass):
                     c = f"isinstance({self.text(s.subject, env)}, {norm_text(p.cls).split('.')[-1]})"
                     res += self.run_states(case.body, [(dict(env), rem + (c,))], outs)
-                    rem = rem + ("not " + c,)
+                    rem = rem + (_neg(c),)
                 elif isinstance(p, ast.MatchAs) and p.pattern is None:
                     res += self.run_states(case.body, [(dict(env), rem)], outs)
                     rem = None
@@ -564,7 +578,7 @@ class LenEv:
                     if a == b:
                         add = a
                     else:
-                        add = l_add(l_mul({("ind", c): 1}, a), l_mul({("ind", "not " + c): 1}, b))
+                        add = l_add(l_mul({("ind", c): 1}, a), l_mul({("ind", _neg(c)): 1}, b))
                     cur = env[k] if isinstance(env[k], dict) else env[k].length
                     new = l_add(cur, add)
                     env[k] = new if isinstance(env[k], dict) else Bytes(new)
@@ -595,10 +609,17 @@ def result_length(v):
     return None
 
 
+_POS = {ast.IsNot: ast.Is, ast.NotEq: ast.Eq, ast.NotIn: ast.In}
+
+
+def _neg(c: str) -> str:
+    return c[4:] if c.startswith("not ") else "not " + c
+
+
 def compatible(c1: tuple, c2: tuple) -> bool:
     s1, s2 = set(c1), set(c2)
     for c in s1:
-        neg = c[4:] if c.startswith("not ") else "not " + c
+        neg = _neg(c)
         if neg in s2:
             return False
     return True
